@@ -3,6 +3,7 @@ from .. import core
 from . import _process_common as pc
 
 ASSUMPTIONS = [
+    'TLAPS (tla/proofs/ProcessProofs.tla, theorem AdmissibleStatesHolds, checked by tlapm on every run): in the guarded Process.tla every reported state was examined by the guard of the step that used it, so a returned model holds admissible masses, temperatures and fractions only - for EVERY N, every arithmetic and every environment (TLC enumerates N in {1, 2, 4} with rationals)',
     "leg A: exact rationals with fluxes large enough to exhaust the feed within 1-3 steps; with the guard every returned behaviour reports only admissible states; the unguarded machine (negative configuration) does not",
     "leg B: coarse discretisations (one step removes 10%..1000% of the feed) of all kinds and permeate modes, plus ordinary ones; a run that raises is fine",
 ]
@@ -42,4 +43,6 @@ def run(ctx, pool):
     for k, v in st2["outcomes"].items():
         stats["outcomes"][k] = stats["outcomes"].get(k, 0) + v
     res = core.validate_traces(None, ctx, tw, pool, "Trace_Process.tla", "Trace_Process_C18.cfg")
-    return pc.finish(res, tw, stats, CLAUSES, "coarse discretisations: " + pc.RULE.replace("1e-4..4e-2", "0.1..10 (coarse) and 1e-4..4e-2"))
+    res = pc.finish(res, tw, stats, CLAUSES, "coarse discretisations: " + pc.RULE.replace("1e-4..4e-2", "0.1..10 (coarse) and 1e-4..4e-2"))
+    core.attach_tlaps(ctx, res, [("ProcessProofs.tla", ["Process.tla"])])
+    return res
